@@ -3,7 +3,7 @@ from fractions import Fraction
 
 from hypothesis import strategies as st
 
-from .. import runner, stats, sut
+from .. import neighbours, runner, stats, sut
 from .. import model as M
 
 ID = "C04"
@@ -206,7 +206,12 @@ def selftest():
 
 def fixed_cases(n):
     pairs = [("https://exp.example/checkout/v1", "https://exp.example/checkout/v2"), ("a /* b */ c1", "a /* b */ c2"), ("s 1", "s  1"),
-             ("x // y1", "x // y2"), (None, "A"), ("", "B"), ("checkout", "checkout'"), ('q"', "q"), ("Exp", "exp"), (" s", "s")]
+             ("x // y1", "x // y2"), (None, "A"), ("", "B"), ("checkout", "checkout'"), ('q"', "q"), ("Exp", "exp"), (" s", "s"),
+             # different salts that weak change-detection fingerprints cannot tell apart (same length and Adler-32 / byte sum / CRC-32)
+             ("exp_121", "exp_202"), ("v0110", "v1001"), ("exp_ab", "exp_ba"), (neighbours.CRC_A, neighbours.CRC_B),
+             # long salts that differ only in their last / first / middle character
+             ("checkout_recommendations_ranker_2026q3_a", "checkout_recommendations_ranker_2026q3_b"), ("x" * 300 + "1", "x" * 300 + "2"),
+             ("a" + "y" * 100, "b" + "y" * 100), ("m" * 40 + "1" + "m" * 40, "m" * 40 + "2" + "m" * 40)]
     fams = FAMILIES
     for i, (s1, s2) in enumerate(pairs):
         yield {"second": "recompile", "family": fams[i % len(fams)], "offset": [0, 10 ** 6, 2 ** 60][i % 3], "weights": ["1", "1", "2"],
